@@ -125,6 +125,7 @@ type vctx struct {
 	mrow   map[types.Object]*vmaprow    // variables bound to a map row
 	mok    map[types.Object]*vmaprow    // the ", ok" variable of a map lookup
 	nonnil map[types.Object]bool        // error variables known to be non-nil here
+	arrs   map[types.Object]bool        // local variables bound to a constant integer array (a list Z)
 	failed bool
 }
 
@@ -425,6 +426,16 @@ func (c *vctx) expr(e ast.Expr) string {
 				return "(negb (g_lookupZ " + mn + " " + k + " =? 0))"
 			}
 		}
+		// a[i] on a local constant integer array (Go panics outside 0..len-1; the translated lookup
+		// yields 0 there, so the source must guard the index — as a table lookup does)
+		if id, ok := x.X.(*ast.Ident); ok && c.arrs[c.info.Uses[id]] {
+			return "(nth (Z.to_nat " + c.expr(x.Index) + ") " + c.vars[c.info.Uses[id]] + " 0)"
+		}
+		if id, ok := x.X.(*ast.Ident); ok {
+			if lst, ok := c.packageIntArray(c.info.Uses[id]); ok {
+				return "(nth (Z.to_nat " + c.expr(x.Index) + ") " + lst + " 0)"
+			}
+		}
 		return c.problem(x.Pos(), "index expression")
 	}
 	return c.problem(e.Pos(), "unsupported expression %T", e)
@@ -670,6 +681,11 @@ func (c *vctx) call(x *ast.CallExpr) string {
 	if id, ok := x.Fun.(*ast.Ident); ok {
 		if _, isB := c.info.Uses[id].(*types.Builtin); isB && id.Name == "len" && len(x.Args) == 1 {
 			at := c.info.TypeOf(x.Args[0])
+			if id, ok := x.Args[0].(*ast.Ident); ok {
+				if lst, ok := c.packageIntArray(c.info.Uses[id]); ok {
+					return "(Z.of_nat (length " + lst + "))"
+				}
+			}
 			switch at.Underlying().(type) {
 			case *types.Slice, *types.Array:
 				return "(Z.of_nat (length " + c.sliceExpr(x.Args[0]) + "))"
@@ -753,6 +769,17 @@ func (c *vctx) ret(r *ast.ReturnStmt) string {
 		}
 		return c.problem(r.Pos(), "returned error is neither nil, a translated validator nor a fresh error")
 	case mValErr:
+		if len(r.Results) == 1 {
+			// return f(x): the callee's (value, error) handed on unchanged
+			if call, ok := r.Results[0].(*ast.CallExpr); ok {
+				if s, ok := c.apply(call, mValErr); ok {
+					fn, _ := c.callee(call)
+					if vf := c.t.translate(fn); vf != nil && vf.valIsZ == c.f.valIsZ {
+						return s
+					}
+				}
+			}
+		}
 		if len(r.Results) != 2 {
 			return c.problem(r.Pos(), "return arity")
 		}
@@ -767,6 +794,13 @@ func (c *vctx) ret(r *ast.ReturnStmt) string {
 		}
 		return c.problem(r.Pos(), "returned error is neither nil nor a fresh error")
 	case mValOk:
+		if len(r.Results) == 1 {
+			if call, ok := r.Results[0].(*ast.CallExpr); ok {
+				if s, ok := c.apply(call, mValOk); ok {
+					return s
+				}
+			}
+		}
 		if len(r.Results) != 2 {
 			return c.problem(r.Pos(), "return arity")
 		}
@@ -980,6 +1014,31 @@ func (c *vctx) stmts(list []ast.Stmt, rest string) string {
 					}
 				}
 			}
+			// x, ok := f(..) for an (int, bool) lookup function: both become plain variables
+			if len(x.Lhs) == 2 && len(x.Rhs) == 1 {
+				if call, ok := x.Rhs[0].(*ast.CallExpr); ok {
+					if s, ok := c.apply(call, mValOk); ok {
+						vn, on := "_", "_"
+						if id, isId := x.Lhs[0].(*ast.Ident); isId && id.Name != "_" {
+							vn = c.define(x.Lhs[0])
+						}
+						if id, isId := x.Lhs[1].(*ast.Ident); isId && id.Name != "_" {
+							on = c.define(x.Lhs[1])
+						}
+						return "(let '(" + vn + ", " + on + ") := match " + s + " with Some v__ => (v__, true) | None => (0, false) end in\n  " + tail() + ")"
+					}
+				}
+			}
+			// a := [...]int{k: v, ...}: a local constant table, as a dense list
+			if len(x.Lhs) == 1 && len(x.Rhs) == 1 {
+				if cl, ok := x.Rhs[0].(*ast.CompositeLit); ok {
+					if lst, ok := c.intArrayLiteral(cl); ok {
+						vn := c.define(x.Lhs[0])
+						c.arrs[c.info.Defs[x.Lhs[0].(*ast.Ident)]] = true
+						return "(let " + vn + " : list Z := " + lst + " in\n  " + tail() + ")"
+					}
+				}
+			}
 			if len(x.Lhs) == 1 && len(x.Rhs) == 1 {
 				t := c.info.TypeOf(x.Rhs[0])
 				if isErrorType(t) && c.nonNilError(x.Rhs[0]) {
@@ -1010,6 +1069,89 @@ func (c *vctx) stmts(list []ast.Stmt, rest string) string {
 		return c.accept()
 	}
 	return c.problem(s.Pos(), "unsupported statement %T", s)
+}
+
+// packageIntArray: a package-level variable of this function's package initialised with a constant
+// integer array literal (trusted not to be reassigned: the effect summary lists stores to globals)
+func (c *vctx) packageIntArray(obj types.Object) (string, bool) {
+	v, ok := obj.(*types.Var)
+	if !ok || v.Pkg() == nil || v.Parent() != v.Pkg().Scope() || v.Pkg() != c.f.pkg.Types {
+		return "", false
+	}
+	for _, f := range c.f.pkg.Syntax {
+		for _, d := range f.Decls {
+			gd, ok := d.(*ast.GenDecl)
+			if !ok || gd.Tok != token.VAR {
+				continue
+			}
+			for _, sp := range gd.Specs {
+				vs := sp.(*ast.ValueSpec)
+				for i, n := range vs.Names {
+					if c.info.Defs[n] != obj || i >= len(vs.Values) {
+						continue
+					}
+					if cl, ok := vs.Values[i].(*ast.CompositeLit); ok {
+						return c.intArrayLiteral(cl)
+					}
+				}
+			}
+		}
+	}
+	return "", false
+}
+
+// intArrayLiteral: [...]int{..} / [N]int{..} / []int{..} with constant integer keys and values
+func (c *vctx) intArrayLiteral(cl *ast.CompositeLit) (string, bool) {
+	t := c.info.TypeOf(cl)
+	var elem types.Type
+	switch u := t.Underlying().(type) {
+	case *types.Array:
+		elem = u.Elem()
+	case *types.Slice:
+		elem = u.Elem()
+	default:
+		return "", false
+	}
+	if !isInteger(elem) {
+		return "", false
+	}
+	vals := map[int64]string{}
+	next, max := int64(0), int64(-1)
+	for _, e := range cl.Elts {
+		v := e
+		if kv, ok := e.(*ast.KeyValueExpr); ok {
+			ktv, ok := c.info.Types[kv.Key]
+			if !ok || ktv.Value == nil {
+				return "", false
+			}
+			k, exact := constant.Int64Val(ktv.Value)
+			if !exact || k < 0 || k > 4096 {
+				return "", false
+			}
+			next, v = k, kv.Value
+		}
+		vtv, ok := c.info.Types[v]
+		if !ok || vtv.Value == nil || vtv.Value.Kind() != constant.Int {
+			return "", false
+		}
+		vals[next] = z(vtv.Value.ExactString())
+		if next > max {
+			max = next
+		}
+		next++
+	}
+	if arr, ok := t.Underlying().(*types.Array); ok && arr.Len()-1 > max {
+		max = arr.Len() - 1
+	}
+	var parts []string
+	for i := int64(0); i <= max; i++ {
+		if s, ok := vals[i]; ok {
+			parts = append(parts, s)
+		} else {
+			parts = append(parts, "0")
+		}
+	}
+	return "[" + strings.Join(parts, "; ") + "]", true
 }
 
 func (c *vctx) define(lhs ast.Expr) string {
@@ -1122,6 +1264,16 @@ func (c *vctx) ifStmt(x *ast.IfStmt, after []ast.Stmt, rest string) string {
 						noneS = "(let " + vn + " := 0 in " + noneS + ")"
 					}
 					return "match " + s + " with\n  | Some " + vn + " => " + someS + "\n  | None => " + noneS + "\n  end"
+				}
+			}
+		}
+		// if v := expr; cond { ... }: an integer or boolean temporary scoped to the statement
+		if len(as.Lhs) == 1 && len(as.Rhs) == 1 {
+			if t := c.info.TypeOf(as.Rhs[0]); t != nil && (isInteger(t) || isBool(t)) {
+				v := c.expr(as.Rhs[0])
+				if !c.failed {
+					vn := c.define(as.Lhs[0])
+					return "(let " + vn + " := " + v + " in\n  " + c.plainIf(x, after, rest) + ")"
 				}
 			}
 		}
@@ -1371,7 +1523,7 @@ func (t *vtrans) translate(fn *types.Func) *vfunc {
 	}
 	info := vf.pkg.TypesInfo
 	c := &vctx{t: t, f: vf, info: info, fset: vf.pkg.Fset, vars: map[types.Object]string{}, mrow: map[types.Object]*vmaprow{},
-		mok: map[types.Object]*vmaprow{}, nonnil: map[types.Object]bool{}}
+		mok: map[types.Object]*vmaprow{}, nonnil: map[types.Object]bool{}, arrs: map[types.Object]bool{}}
 	vf.nonOpt = map[types.Object]bool{}
 	// pointer variables that are dereferenced
 	ast.Inspect(vf.decl.Body, func(n ast.Node) bool {
